@@ -106,4 +106,122 @@ theorem route_covers (us probe : Bool) (seen : SeenMap) (now : Int) (nq q0 : Nat
     · simp only [Bool.false_eq_true, if_false]; exact Or.inr (key qr)
     · simp only [if_true]; exact Or.inr (key _)
 
+/-- `async_response` says something as soon as some packet has a strategy -/
+theorem asyncResponse_isSome {pkts : List Pkt} (us : Bool) (seen : SeenMap) {p : Pkt} (hp : p ∈ pkts) {it : QItem} (hit : it ∈ p.items) :
+    ∃ qa, asyncResponse pkts us seen = some qa := by
+  unfold asyncResponse
+  simp only
+  have hne : (pkts.flatMap (·.items)).isEmpty = false := by
+    cases hl : pkts.flatMap (·.items) with
+    | nil => have : it ∈ pkts.flatMap (·.items) := List.mem_flatMap.mpr ⟨p, hp, hit⟩; rw [hl] at this; cases this
+    | cons _ _ => rfl
+  rw [hne]
+  simp only [Bool.false_eq_true, if_false]
+  cases pkts with
+  | nil => cases hp
+  | cons p0 ps =>
+    have : ∃ l, (p0 :: ps).getLast? = some l := by
+      cases hl : (p0 :: ps).getLast? with
+      | none => simp at hl
+      | some l => exact ⟨l, rfl⟩
+    obtain ⟨l, hl⟩ := this
+    rw [hl]
+    exact ⟨_, rfl⟩
+
+/-- legacy routing (`ucast_source` true) for the whole query: every unsuppressed candidate is unicast and in a multicast set -/
+theorem query_legacy_us {pkts : List Pkt} {seen : SeenMap} {qa : QA} (h : asyncResponse pkts true seen = some qa)
+    {p : Pkt} (hp : p ∈ pkts) {it : QItem} (hit : it ∈ p.items) (r : RecId) (hr : r ∈ (answerSet (unionKnown pkts) it).keys) :
+    r ∈ qa.ucast.keys ∧ (r ∈ qa.mcastNow.keys ∨ r ∈ qa.mcastAgg.keys ∨ r ∈ qa.mcastLast.keys) := by
+  obtain ⟨first, last, hf, hl, _⟩ := asyncResponse_eq h
+  have step : ∀ (inN inA inL : Bool),
+      (inN = true → mcRoute (pkts.any (·.isProbe)) (inLastSecond (seen.get r) last.now) first.nq first.q0type = .now) →
+      (inA = true → mcRoute (pkts.any (·.isProbe)) (inLastSecond (seen.get r) last.now) first.nq first.q0type = .aggregate) →
+      (inL = true → mcRoute (pkts.any (·.isProbe)) (inLastSecond (seen.get r) last.now) first.nq first.q0type = .lastSecond) →
+      (true = true → r ∈ qa.ucast.keys) ∧ (inN = true → r ∈ qa.mcastNow.keys) ∧ (inA = true → r ∈ qa.mcastAgg.keys) ∧
+        (inL = true → r ∈ qa.mcastLast.keys) := by
+    intro inN inA inL hN hA hL
+    apply asyncResponse_lift h hp hit r true inN inA inL
+    intro f l qr hf' hl'
+    rw [hf] at hf'; rw [hl] at hl'; cases hf'; cases hl'
+    simp only [QR.route, GenFacts.route_qu_only, Bool.not_true, Bool.false_and, Bool.false_eq_true, if_false, if_true]
+    obtain ⟨u1, _, _, _⟩ := addUcast_sets (answerSet (unionKnown pkts) it) qr r
+    obtain ⟨h1, h2, h3, h4⟩ := addMcast_sets (pkts.any (·.isProbe)) seen last.now first.nq first.q0type
+      (answerSet (unionKnown pkts) it) (qr.addUcast (answerSet (unionKnown pkts) it)) r
+    exact ⟨fun _ => by rw [h4]; exact u1.mpr (Or.inr hr), fun hh => h1.mpr (Or.inr ⟨hr, hN hh⟩),
+           fun hh => h3.mpr (Or.inr ⟨hr, hA hh⟩), fun hh => h2.mpr (Or.inr ⟨hr, hL hh⟩)⟩
+  cases hroute : mcRoute (pkts.any (·.isProbe)) (inLastSecond (seen.get r) last.now) first.nq first.q0type
+  · obtain ⟨a, b, _, _⟩ := step true false false (fun _ => hroute) (fun hh => nomatch hh) (fun hh => nomatch hh)
+    exact ⟨a rfl, Or.inl (b rfl)⟩
+  · obtain ⟨a, _, _, d⟩ := step false false true (fun hh => nomatch hh) (fun hh => nomatch hh) (fun _ => hroute)
+    exact ⟨a rfl, Or.inr (Or.inr (d rfl))⟩
+  · obtain ⟨a, _, c, _⟩ := step false true false (fun hh => nomatch hh) (fun _ => hroute) (fun hh => nomatch hh)
+    exact ⟨a rfl, Or.inr (Or.inl (c rfl))⟩
+
+/-- QU question, source port 5353 (`ucast_source` false), for the whole query -/
+theorem query_qu_us {pkts : List Pkt} {seen : SeenMap} {qa : QA} (h : asyncResponse pkts false seen = some qa)
+    {p : Pkt} (hp : p ∈ pkts) {it : QItem} (hit : it ∈ p.items) (hqu : it.qu = true)
+    (r : RecId) (hr : r ∈ (answerSet (unionKnown pkts) it).keys) {last : Pkt} (hl : pkts.getLast? = some last) :
+    (withinQuarter (seen.get r) last.now = true → r ∈ qa.ucast.keys) ∧
+    (withinQuarter (seen.get r) last.now = false → r ∈ qa.mcastNow.keys) ∧
+    (pkts.any (·.isProbe) = true → r ∈ qa.ucast.keys) := by
+  have step : ∀ (inU inN : Bool),
+      (inU = true → pkts.any (·.isProbe) = true ∨ withinQuarter (seen.get r) last.now = true) →
+      (inN = true → withinQuarter (seen.get r) last.now = false) →
+      (inU = true → r ∈ qa.ucast.keys) ∧ (inN = true → r ∈ qa.mcastNow.keys) := by
+    intro inU inN hU hN
+    obtain ⟨a, b, _, _⟩ := asyncResponse_lift h hp hit r inU inN false false (by
+      intro f l qr _ hl'
+      rw [hl] at hl'; cases hl'
+      simp only [QR.route, hqu, GenFacts.route_qu_only, Bool.not_false, Bool.true_and, if_true]
+      obtain ⟨h1, h2, _, _⟩ := addQu_sets (pkts.any (·.isProbe)) seen last.now (answerSet (unionKnown pkts) it) qr r
+      exact ⟨fun hh => h1.mpr (Or.inr ⟨hr, hU hh⟩), fun hh => h2.mpr (Or.inr ⟨hr, hN hh⟩), (fun hh => nomatch hh), (fun hh => nomatch hh)⟩)
+    exact ⟨a, b⟩
+  refine ⟨fun hw => ?_, fun hw => ?_, fun hpr => ?_⟩
+  · exact (step true false (fun _ => Or.inr hw) (fun hh => nomatch hh)).1 rfl
+  · exact (step false true (fun hh => nomatch hh) (fun _ => hw)).2 rfl
+  · exact (step true false (fun _ => Or.inl hpr) (fun hh => nomatch hh)).1 rfl
+
+/-- completeness for the whole query: every unsuppressed candidate is in one of the four sets -/
+theorem query_complete {pkts : List Pkt} {us : Bool} {seen : SeenMap} {qa : QA}
+    (h : asyncResponse pkts us seen = some qa) {p : Pkt} (hp : p ∈ pkts) {it : QItem} (hit : it ∈ p.items)
+    (r : RecId) (hr : r ∈ (answerSet (unionKnown pkts) it).keys) :
+    r ∈ qa.ucast.keys ∨ r ∈ qa.mcastNow.keys ∨ r ∈ qa.mcastAgg.keys ∨ r ∈ qa.mcastLast.keys := by
+  obtain ⟨first, last, _, _, rfl⟩ := asyncResponse_eq h
+  obtain ⟨k1, k2, k3, k4⟩ := answers_keys
+    (List.foldl (fun (qr : QR) it => qr.route us (pkts.any (·.isProbe)) seen last.now first.nq first.q0type it.qu
+      (answerSet (unionKnown pkts) it)) {} (pkts.flatMap (·.items)))
+  rw [k1, k2, k3, k4]
+  exact foldl_establish
+    (fun (qr : QR) it => qr.route us (pkts.any (·.isProbe)) seen last.now first.nq first.q0type it.qu (answerSet (unionKnown pkts) it))
+    (fun qr => qr.mem r)
+    (fun a b hq => by
+      obtain ⟨m1, m2, m3, m4⟩ := route_mono us (pkts.any (·.isProbe)) seen last.now first.nq first.q0type a b.qu (answerSet (unionKnown pkts) b) r
+      rcases hq with hq | hq | hq | hq
+      · exact Or.inl (m1 hq)
+      · exact Or.inr (Or.inl (m2 hq))
+      · exact Or.inr (Or.inr (Or.inl (m3 hq)))
+      · exact Or.inr (Or.inr (Or.inr (m4 hq))))
+    (fun a => route_covers us _ seen last.now first.nq first.q0type a it.qu _ r hr) _ {} (List.mem_flatMap.mpr ⟨p, hp, hit⟩)
+
+/-- a candidate that the known answers cannot or do not suppress is a key of the strategy's answer set -/
+theorem answerSet_has (known : List (RecId × Nat)) (it : QItem) (c : Cand) (hc : c ∈ it.cands) (hs : suppresses known c = false) :
+    c.id ∈ (answerSet known it).keys := by
+  unfold answerSet
+  have keep : ∀ (l : List Cand) (d : Dict), c.id ∈ d.keys → c.id ∈ (l.foldl (fun d c => d.set c.id c.adds) d).keys := by
+    intro l
+    induction l with
+    | nil => intro d h; exact h
+    | cons y l ih2 => intro d h; exact ih2 _ ((Dict.keys_set _ _ _ _).mpr (Or.inl h))
+  have key : ∀ (l : List Cand) (d : Dict), c ∈ l → c.id ∈ (l.foldl (fun d c => d.set c.id c.adds) d).keys := by
+    intro l
+    induction l with
+    | nil => intro d h; cases h
+    | cons x l ih =>
+      intro d h
+      simp only [List.foldl_cons]
+      rcases List.mem_cons.mp h with rfl | h
+      · exact keep l _ ((Dict.keys_set _ _ _ _).mpr (Or.inr rfl))
+      · exact ih _ h
+  exact key _ _ (List.mem_filter.mpr ⟨hc, by simp [hs]⟩)
+
 end Zc.Reply
